@@ -28,7 +28,12 @@ pub fn bvalue(v: &J) -> csl::Value {
     }
     if assets.is_empty() { csl::Value::new(&coin) } else { csl::Value::new_with_assets(&coin, &ma) }
 }
-fn pdata(n: u64) -> csl::PlutusData { csl::PlutusData::new_integer(&csl::BigInt::from_str(&n.to_string()).unwrap()) }
+/// datum of id n: the integer n, freshly built; ids from 3_000_000_000 up: the integer n - 3_000_000_000 DECODED from a non-minimal encoding (4-byte
+/// head) which it keeps - the same value as datum n - 3_000_000_000, other bytes, another datum hash
+fn pdata(n: u64) -> csl::PlutusData {
+    if n >= 3_000_000_000 && n < 3_000_100_000 { let mut b = vec![0x1au8]; b.extend(((n - 3_000_000_000) as u32).to_be_bytes()); return csl::PlutusData::from_bytes(b).unwrap(); }
+    csl::PlutusData::new_integer(&csl::BigInt::from_str(&n.to_string()).unwrap())
+}
 
 // ---- scripts: Plutus script id s -> bytes s,s,.. (20+s of them), language 1 + s % 3; native script id k -> signature of key k
 pub fn plang(sid: u8) -> csl::Language { match sid % 3 { 0 => csl::Language::new_plutus_v1(), 1 => csl::Language::new_plutus_v2(), _ => csl::Language::new_plutus_v3() } }
@@ -421,6 +426,14 @@ fn apply(st: &mut St, op: &J) -> Result<Map<String, J>, csl::JsError> {
         "SetTtl" => st.tb.set_ttl_bignum(&bn_of(&op["n"])),
         "SetValidityStart" => st.tb.set_validity_start_interval_bignum(bn_of(&op["n"])),
         "AddRequiredSigner" => { let k = op["k"].as_u64().unwrap() as u8; st.tb.add_required_signer(&mk::gkeyhash(k)); st.req_signers.push(k); }
+        // auxiliary data / metadata that is present but holds nothing
+        "SetAux" if op.get("empty").is_some() => {
+            match op["empty"].as_str().unwrap_or("metadata") {
+                "aux" => st.tb.set_auxiliary_data(&csl::AuxiliaryData::new()),
+                "aux_alonzo" => { let mut a = csl::AuxiliaryData::new(); a.set_prefer_alonzo_format(true); st.tb.set_auxiliary_data(&a); }
+                _ => st.tb.set_metadata(&csl::GeneralTransactionMetadata::new()),
+            }
+        }
         "SetAux" => {
             let mut md = csl::GeneralTransactionMetadata::new();
             md.insert(&bn_of(&op["label_n"]), &csl::TransactionMetadatum::new_text("x".repeat(op["len"].as_u64().unwrap_or(3) as usize))?);
@@ -611,7 +624,9 @@ fn gen_minada(rng: &mut Rng) -> J {
         let na = *rng.pick(&[0u64, 0, 1, 3, 10]);
         let coin = *rng.pick(&[0u64, 0, 1, 23, 24, 255, 256, 65535, 65536, 1_000_000, 0xffff_ffff, 0x1_0000_0000, u64::MAX]);
         let mut o = json!({"to": {"kind": *rng.pick(&["ent", "base", "byron", "ptr", "script_ent"]), "k": 1 + rng.below(5)}, "value": rvalue(rng, coin, na)});
-        match rng.below(6) { 0 => { o["datum"] = json!({"hash": 1}); } 1 => { o["datum"] = json!({"inline": rng.below(1 << 20)}); } 2 => { o["datum"] = json!({"inline_bytes": rng.below(70)}); } 3 => { o["ref_script"] = json!(3); } _ => {} }
+        match rng.below(6) { 0 => { o["datum"] = json!({"hash": 1}); } 1 => { o["datum"] = json!({"inline": rng.below(1 << 20)}); } 2 => { o["datum"] = json!({"inline_bytes": rng.below(70)}); } _ => {} }
+        // (a script reference - native, compound native or Plutus - with or without a datum next to it)
+        match rng.below(6) { 0 => { o["ref_script"] = json!(3); } 1 => { o["ref_script"] = json!(21 + rng.below(4)); } 2 => { o["ref_script"] = json!({"plutus": 1 + rng.below(6)}); } _ => {} }
         // size of the output at this coin, to aim cpb at the boundaries 24, 2^8, 2^16, 2^32 of cpb * (160 + size)
         let size = output_of(&o).map(|x| x.to_bytes().len() as u64).unwrap_or(60);
         let target = *rng.pick(&[24u64, 256, 65536, 65536, 1 << 32, 1 << 32]);
@@ -818,7 +833,7 @@ pub fn gen(rng: &mut Rng) -> J {
         let wc = width_coin(rng);
         // owners overlap: a few key ids shared between UTxOs
         let mut e = json!({"u": u, "ix": rng.below(3), "addr": {"kind": kind, "k": 1 + rng.below(4)}, "value": rvalue(rng, wc, na)});
-        if one_tx { e["tx"] = json!(9); e["ix"] = json!([256u64, 1, 65536, 255, 4294967295, 0][u as usize % 6]); }
+        if one_tx { e["tx"] = json!(9); e["ix"] = json!([256u64, 1, 65535, 255, 257, 0][u as usize % 6]); }
         utxo.push(e);
     }
     let mut ops = vec![];
@@ -870,6 +885,8 @@ pub fn gen(rng: &mut Rng) -> J {
                              3 => { mints.push(json!({"mp": *rng.pick(&[10u64, 11, 21, 23]), "n": [70], "amt": {"neg": false, "mag_n": jn(20)}}));
                                     if rng.chance(1, 2) { mints.push(json!({"mp": *rng.pick(&[12u64, 22, 24]), "n": jbytes(&rng.bytes(3)), "amt": {"neg": false, "mag_n": jn(1 + rng.below(1 << 33))}})); } }
                              _ => {} }
+        // (a mint builder that was set but holds nothing: no mint field may be emitted for it)
+        if rng.chance(1, 10) { mints.clear(); }
         ops.push(json!({"op": "SetMint", "mints": mints}));
     }
     if rng.chance(1, 6) {
@@ -929,7 +946,7 @@ pub fn gen(rng: &mut Rng) -> J {
                 3 => ops.push(json!({"op": "AddMetadatum", "label_n": jn(label), "how": "json_basic", "json": *rng.pick(&["{\"0xab\":\"0xcd\",\"7\":[1]}", "\"0x00ff\"", "{\"5\":-7}"])})),
                 4 => ops.push(json!({"op": "AddMetadatum", "label_n": jn(label), "how": "json_detailed", "json": *rng.pick(&["{\"map\":[{\"k\":{\"int\":1},\"v\":{\"bytes\":\"00ff\"}}]}", "{\"list\":[{\"string\":\"s\"},{\"int\":-5}]}"])})),
                 5 => ops.push(json!({"op": "SetAuxScripts", "native": [1 + rng.below(12)], "plutus": if rng.chance(1, 2) { vec![1 + rng.below(6)] } else { vec![] }})),
-                6 => ops.push(json!({"op": "RemoveAux"})),
+                6 => ops.push(if rng.chance(1, 2) { json!({"op": "RemoveAux"}) } else { json!({"op": "SetAux", "empty": *rng.pick(&["metadata", "aux", "aux_alonzo"])}) }),
                 _ => ops.push(json!({"op": "SetAux", "label_n": jn(label), "len": 1 + rng.below(60), "alonzo": rng.chance(1, 2)})),
             }
         }
@@ -1005,7 +1022,7 @@ pub fn gen(rng: &mut Rng) -> J {
     } else if rng.chance(1, 10) {
         ops.push(json!({"op": "SetFee", "n": jn(200_000 + rng.below(300_000))}));
     } else {
-        if rng.chance(1, 8) { ops.push(json!({"op": "AddChangeWithDatum", "to": to, "datum": if rng.chance(1, 2) { json!({"hash": rng.below(100)}) } else { json!({"inline": rng.below(1 << 40)}) }})); }
+        if rng.chance(1, 8) { ops.push(json!({"op": "AddChangeWithDatum", "to": to, "datum": if rng.chance(1, 2) { json!({"hash": rng.below(100)}) } else { json!({"inline": rng.below(1 << 31)}) }})); }
         else { ops.push(json!({"op": "AddChange", "to": to})); }
         // the caller keeps working on the builder after balancing succeeded: whatever a validating build still produces must obey the rules
         if rng.chance(1, 7) {
@@ -1038,7 +1055,7 @@ pub fn gen_plutus(rng: &mut Rng) -> J {
     // a third of the scenarios: every output comes from ONE transaction, with indices on both sides of the byte boundaries (the
     // ledger orders outpoints by transaction id, then NUMERICALLY by index)
     let one_tx = rng.chance(1, 3);
-    const WIDE_IX: [u64; 14] = [3, 256, 1, 65536, 255, 7, 257, 65535, 2, 4294967295, 0, 1 << 24, 512, 258];
+    const WIDE_IX: [u64; 14] = [3, 256, 1, 65534, 255, 7, 257, 65535, 2, 4096, 0, 300, 512, 258];   // (the ledger's index is 16 bits wide)
     let mut new_u = |utxo: &mut Vec<J>, mut e: J, rng: &mut Rng| -> u64 { let u = next_u; next_u += 1; e["u"] = json!(u);
         if one_tx { e["tx"] = json!(5); e["ix"] = json!(if (u as usize) < WIDE_IX.len() { WIDE_IX[u as usize] } else { 1000 + u }); }
         else { e["tx"] = json!((u * 7) % 41 + 1); e["ix"] = json!(rng.below(4)); }
@@ -1074,7 +1091,7 @@ pub fn gen_plutus(rng: &mut Rng) -> J {
     let nsp = rng.below(4);
     for _ in 0..nsp {
         let sid = 1 + rng.below(4);
-        let dn = *rng.pick(&[500u64, 501, 502]);
+        let dn = *rng.pick(&[500u64, 501, 502, 3_000_000_500, 3_000_000_501]);
         let dk = rng.below(3);
         let mut e = json!({"addr": {"kind": "plutus_ent", "s": sid}, "value": {"coin_n": jn(2_000_000 + rng.below(5_000_000)), "assets": []}});
         let datum = match dk { 0 => { e["datum"] = json!({"hash": dn}); json!("wit") } 1 => { e["datum"] = json!({"inline": dn}); json!("none") } _ => { e["datum"] = json!({"hash": 777}); json!({"ref": datum_ref}) } };
